@@ -181,6 +181,16 @@ func c14ExecR(in []string) []string {
 	})
 	op := &runtime.ClientOperation{ID: "op", Method: method, PathPattern: "/p", ProducesMediaTypes: []string{runtime.JSONMime},
 		ConsumesMediaTypes: []string{cmt}, Schemes: []string{"http"}, Params: params, AuthInfo: opW}
+	if len(in[9])%2 == 1 || len(pid)%2 == 1 {
+		// a Runtime serves many requests and its default credential may be rotated between them: on about
+		// half of the cases the request judged here is the second one built by this Runtime, the first having
+		// been built under another default credential and for an operation without one of its own
+		rt.DefaultAuthentication = client.BearerToken("warm-up-token")
+		warm := *op
+		warm.AuthInfo = nil
+		_, _ = rt.CreateHttpRequest(&warm)
+		rt.DefaultAuthentication = dfW
+	}
 	req, err := rt.CreateHttpRequest(op)
 	if err != nil {
 		return []string{"CREATEERR"}
